@@ -167,8 +167,39 @@ def run(tier, seed):
         queries += [("Mperiod", "bad_indices (period_model_bad registered) period_cases"),
                     ("Maud", "bad_indices (period_model_bad registered) audition_period_cases"),
                     ("Mraw", "bad_indices (raw_model_bad registered) raw_cases")]
-    rc, cout, q, path = vlib.eval_cases(PID, tier, HEADER_GEN if t_ok else HEADER_NOGEN, cases_v, queries, timeout=3000)
-    vals = {k: vlib.parse_nat_list(v) for k, v in q.items()}
+    # period_cases can hold tens of thousands of elements (thorough): Coq's parser overflows its
+    # stack on such a list, so it is evaluated in shards (the other definitions go with shard 0)
+    header = HEADER_GEN if t_ok else HEADER_NOGEN
+    sp = vlib.split_list_def(cases_v, "period_cases")
+    if sp is None or len(sp[1]) <= 12000:
+        rc, cout, q, path = vlib.eval_cases(PID, tier, header, cases_v, queries, timeout=3000)
+        vals = {k: vlib.parse_nat_list(v) for k, v in q.items()}
+    else:
+        head, items, tail = sp
+        rest = cases_v.replace(vlib.join_list_def(head, items, tail), "")
+        per = 10000
+        shards = [(off, items[off:off + per]) for off in range(0, len(items), per)]
+        pq = [x for x in queries if x[0] in ("Operiod", "Mperiod")]
+        oq = [x for x in queries if x[0] not in ("Operiod", "Mperiod")]
+
+        def ev(arg):
+            i, (off, its) = arg
+            text = vlib.join_list_def(head, its, tail) + (rest if i == 0 else "")
+            r, co, qq, pth = vlib.eval_cases(PID, "%s%d" % (tier, i), header, text, pq + (oq if i == 0 else []), timeout=3000)
+            return r, co, {k: vlib.parse_nat_list(v) for k, v in qq.items()}, pth, off
+
+        import concurrent.futures
+        with concurrent.futures.ThreadPoolExecutor(max_workers=min(len(shards), vlib.NCPU)) as ex:
+            results = list(ex.map(ev, enumerate(shards)))
+        vals = {k: [] for k, _ in queries}
+        rc, cout, path = 0, "", results[0][3]
+        for r_rc, r_out, r_vals, _, off in results:
+            if r_rc != 0 or any(v is None for v in r_vals.values()):
+                rc, cout = (r_rc or 1), r_out
+                vals = {k: None for k in vals}
+                break
+            for k, v in r_vals.items():
+                vals[k] += [off + x for x in v] if k in ("Operiod", "Mperiod") else v
     res.coverage.update({
         "evaluations": summary["period"] + summary["raw"] + summary["audition_period"],
         "distinct_nontrivial": summary["distinct_nontrivial"],
